@@ -6,6 +6,7 @@ import Proofs.FrameBack
 import Proofs.FrameTeam
 import Proofs.FrameTeamBack
 import Proofs.FrameAlt
+import Proofs.Ordered
 import Proofs.WFCheck
 /-!
 C06 — reported start and end frame exactly the booked work.
@@ -141,5 +142,23 @@ theorem framed_with_alternative (e : Env) (wf : WF e) (t r1 r2 : Nat) (hel : Eli
       (∃ v, ((runScenario e).tst t).start = some v ∧ e.time fb ≤ v ∧ v ≤ e.time (fb + 1)) ∧
       (∃ v, ((runScenario e).tst t).stop = some v ∧ e.time last ≤ v ∧ v ≤ e.time (last + 1)) :=
   runScenario_framed_alt e wf t r1 r2 hel (runScenario_scheduled_done e t ⟨hel.leaf, hel.effort, hel.nomile⟩ hs)
+
+/-! ### start ≤ end -/
+
+/-- **start ≤ end always** (`Proofs/Ordered`; the single-slot case rests on `bookResource_usedBefore`: the first booking in
+    the slot of the dependency bound leaves the part of the slot before the bound alone, so the end, counted from what was
+    used before the task's own seconds, cannot come before the start): after scheduling ANY well-formed project, every effort
+    task with a single selected resource that is reported as scheduled — forward or backward, spanning many slots or beginning
+    and finishing inside one — has a reported start and a reported end with start ≤ end. -/
+theorem start_le_end (e : Env) (wf : WF e) (t r : Nat) (hel : Elig e t r)
+    (hs : ((runScenario e).tst t).scheduled = true) :
+    ∃ s v, ((runScenario e).tst t).start = some s ∧ ((runScenario e).tst t).stop = some v ∧ s ≤ v :=
+  (runScenario_ordered e wf).1 t r hel (runScenario_scheduled_done e t ⟨hel.leaf, hel.effort, hel.nomile⟩ hs)
+
+/-- the same for a task with one primary and one alternative resource -/
+theorem start_le_end_with_alternative (e : Env) (wf : WF e) (t r1 r2 : Nat) (hel : EligAlt e t r1 r2)
+    (hs : ((runScenario e).tst t).scheduled = true) :
+    ∃ s v, ((runScenario e).tst t).start = some s ∧ ((runScenario e).tst t).stop = some v ∧ s ≤ v :=
+  (runScenario_ordered e wf).2 t r1 r2 hel (runScenario_scheduled_done e t ⟨hel.leaf, hel.effort, hel.nomile⟩ hs)
 
 end SP.C06
